@@ -154,25 +154,35 @@ type backend struct {
 func (b *backend) URL() *url.URL { return b.targetURL }
 
 func unescape(value string, handling config.EncodedSlashesHandling) string {
-	if handling == config.EncodedSlashesOn {
-		unescaped, _ := url.PathUnescape(value)
-
+	unescaped, err := url.PathUnescape(value)
+	if err != nil || handling == config.EncodedSlashesOn {
 		return unescaped
 	}
 
-	// an encoded slash may be written using upper, or lower case hex digits
-	unescaped, _ := url.PathUnescape(encodedSlashHider.Replace(value))
+	// an encoded slash (written using upper, or lower case hex digits) stays as it is,
+	// everything in between is decoded
+	var (
+		result strings.Builder
+		start  int
+	)
 
-	return encodedSlashRestorer.Replace(unescaped)
+	for idx := 0; idx+2 < len(value); idx++ {
+		if value[idx] == '%' && value[idx+1] == '2' && (value[idx+2] == 'F' || value[idx+2] == 'f') {
+			part, _ := url.PathUnescape(value[start:idx])
+
+			result.WriteString(part)
+			result.WriteString(value[idx : idx+3])
+
+			idx += 2
+			start = idx + 1
+		}
+	}
+
+	part, _ := url.PathUnescape(value[start:])
+	result.WriteString(part)
+
+	return result.String()
 }
-
-//nolint:gochecknoglobals
-var (
-	encodedSlashHider = strings.NewReplacer(
-		"%2F", "$$$escaped-slash$$$", "%2f", "$$$escaped-lc-slash$$$")
-	encodedSlashRestorer = strings.NewReplacer(
-		"$$$escaped-slash$$$", "%2F", "$$$escaped-lc-slash$$$", "%2f")
-)
 
 func containsEncodedSlash(path string) bool {
 	return strings.Contains(path, "%2F") || strings.Contains(path, "%2f")
